@@ -9,16 +9,23 @@ from .verify import call_native, native_args
 def check_clause_native(ct, args, clauses=None):
     """returns None if fine, else dict describing the failure"""
     try:
-        if ct.requires is not None and not call_native(ct.requires, args):
+        if (ct.requires is not None and not call_native(ct.requires, args)) or \
+                (ct.requires_g is not None and not call_native(ct.requires_g, args)):
             return 'skip'
     except Exception:
         return 'skip'
     try:
-        result = ct.func(*native_args(ct, args))
+        if ct.native_harness is not None:
+            extra = ct.native_harness(args)
+            result = extra.pop('result')
+        else:
+            extra = {}
+            result = ct.func(*native_args(ct, args))
         raised = None
     except Exception as e:
-        result, raised = None, type(e).__name__
+        result, raised, extra = None, type(e).__name__, {}
     env = dict(args)
+    env.update(extra)
     env['result'] = result
     if raised is not None:
         fn = ct.raises.get(raised)
